@@ -48,12 +48,15 @@ package choquet
 //@   property C03 C01 C04 C07 C15 C18
 //@   ensures [ascending_values] result != nil && fresh(result) && forall a int, b int :: 0 <= a && a < b && b < len(*result) ==> (*result)[a].weight <= (*result)[b].weight
 //@   ensures [the_alternatives_values] forall k int :: 0 <= k && k < len(*result) ==> pairOf((*result)[k], *alternative)
+//@   ensures [one_entry_per_value_of_the_alternative] len(*result) == len(alternative.Criteria)
 //@   loop 1 invariant [ctx] fresh(sorted) && i >= 0
 //@   loop 1 invariant [pairs] forall k int :: 0 <= k && k < len(sorted) ==> pairOf(sorted[k], *alternative)
 
 //@ func choquetIntegral
 //@   property C03 C01 C04 C07 C15 C18
 //@   ensures [single_value] result != nil && typeis(result.Evaluation, model.EvaluationSingleValue) && result.Alternative == *alternative
+//@   returnhint [every_value_of_the_alternative_takes_part] len(*sortedCriteria) == len(alternative.Criteria)
+//@             && forall k int :: 0 <= k && k < len(*sortedCriteria) ==> pairOf((*sortedCriteria)[k], *alternative)
 //@ func (*ChoquetIntegralPreferenceFunc).Evaluate$1
 //@   property C03 C15 C07 C18 C01 C04
 //@   ensures [is_choquet] result != nil && typeis(result.Evaluation, model.EvaluationSingleValue) && result.Alternative == *alternative
@@ -141,7 +144,7 @@ package choquet
 //@   ensures [C04 ordered_by_value_then_id] forall i int, j int :: 0 <= i && i < j && j < len(*result) ==> !model.ordered((*result)[j].AlternativeResult, (*result)[i].AlternativeResult)
 
 //@ func (*ChoquetIntegralPreferenceFunc).MethodParameters
-//@   property C20
+//@   property C20 C03
 //@   nopanic
 //@   ensures [schema_of_the_weights_parameter] typeis(result, model.WeightType)
 
